@@ -65,4 +65,9 @@ TEXTS["C13"] = {
     "note": "Real adder, ipfsadd, single and sharding DAG services, adderutils, REST /add and client from /repo; Cluster.BlockAllocate/Pin and IPFSConnector.BlockPut are recording RPC services on real loopback hosts.",
     "technique": "property-based differential testing against a reference importer, with fault injection (rapid)",
 }
+TEXTS["C07"] = {
+    "level": "Per generated trust configuration and Trust/Distrust history, the full endpoint x remote-caller matrix (every method of the five RPC services, found by reflection) is evaluated over real libp2p connections against a real Cluster with real Raft or CRDT consensus: an allowed call must be justified by a frozen OPEN/TRUSTED/LOCAL table and the model's trust state. The finite matrix is exhaustive per step; configurations and histories are sampled. A second leg runs three real CRDT replicas and checks that updates signed by an untrusted peer are ignored until it is trusted, with a trusted peer's marker as liveness witness. Exploration level.",
+    "note": "Real newRPCServer/DefaultRPCPolicy/authorisation function, crdt and raft IsTrustedPeer/Trust/Distrust and the pubsub topic validator from /repo. The frozen table is the harness's reading of the statement and of rpc_policy.go's comments.",
+    "technique": "exhaustive endpoint x caller matrix per generated trust history (rapid), oracle = frozen permission table",
+}
 PENDING = {}
